@@ -3,3 +3,11 @@ export GOFLAGS=-mod=mod GOPROXY=off GOSUMDB=off GOTOOLCHAIN=local
 export VERIF_DIR="${VERIF_DIR:-$(cd "$(dirname "${BASH_SOURCE[0]}")/.." && pwd)}"
 export VERIF_BUILD="$VERIF_DIR/.build"
 mkdir -p "$VERIF_BUILD"
+# the tree under test: /repo unless VERIF_REPO says otherwise (background runs on a snapshot)
+export VERIF_REPO="${VERIF_REPO:-/repo}"
+# harness go.mod with the replace directive pointing at the tree under test
+verif_modfile() {
+  sed "s#=> /repo#=> $VERIF_REPO#" "$VERIF_DIR/harness/go.mod" > "$VERIF_BUILD/harness.mod"
+  cp "$VERIF_REPO/go.sum" "$VERIF_BUILD/harness.sum"
+  echo "$VERIF_BUILD/harness.mod"
+}
